@@ -177,6 +177,16 @@ fn judge_cube(
                 }
             }
         }
+        if KIND == Kind::Zbdd && val.is_none() && called[level].is_none() && forced.is_none() {
+            // In a ZBDD a variable the function does not care about still has a node (a skipped
+            // level means false), so "there is a choice" in the documented sense and a literal of
+            // the set must be honoured
+            if let Some((lp, ln)) = lits {
+                if (lp | ln) >> v & 1 == 1 {
+                    return Err(format!("variable {} occurs in the literal set and is not forced, but the cube leaves it don't care", v));
+                }
+            }
+        }
         g = match val {
             Some(true) => g1,
             Some(false) => g0,
@@ -277,6 +287,56 @@ pub fn step_bool(s: &mut Mach, ins: &Instr, model: &mut Model, ctx: &mut RunCtx)
                 }
             }
         }
+        BigCount { k } if KIND != Kind::Zbdd && s.cfg.capacity >= 4096 => {
+            let k = (*k as u32).clamp(2, 14);
+            let mut cfg2 = s.cfg.clone();
+            cfg2.vars = 2 * k;
+            cfg2.capacity = 1 << 17;
+            let big = Mach::new(&cfg2);
+            let f: oxidd::util::AllocResult<F> = big.mref.with_manager_shared(|m| {
+                let mut acc = F::f(m);
+                for i in 0..k {
+                    let t = F::var(m, i)?.and(&F::var(m, k + i)?)?;
+                    acc = acc.or(&t)?;
+                }
+                Ok(acc)
+            });
+            match f {
+                Err(_) => ctx.violate(&["C03", "C14"], "big-count-oom", format!("{:?}: out of memory in a manager of 131072 nodes", ins)),
+                Ok(f) => {
+                    let nc = f.node_count();
+                    // independent traversal through the public API
+                    let walked = big.mref.with_manager_shared(|m| {
+                        let mut seen = std::collections::HashSet::new();
+                        let mut terms = std::collections::HashSet::new();
+                        let mut stack = vec![f.as_edge(m).borrowed()];
+                        while let Some(e) = stack.pop() {
+                            match m.get_node(&e) {
+                                oxidd::Node::Inner(n) => {
+                                    if seen.insert(e.node_id()) {
+                                        for c in n.children() {
+                                            stack.push(c);
+                                        }
+                                    }
+                                }
+                                oxidd::Node::Terminal(_) => {
+                                    terms.insert(e.node_id());
+                                }
+                            }
+                        }
+                        seen.len() + terms.len()
+                    });
+                    // inner nodes: 2^(k+1) - 2; terminals: 2 (BDD) or 1 (complement edges)
+                    let exp = (1usize << (k + 1)) - 2 + if KIND == Kind::Bcdd { 1 } else { 2 };
+                    ctx.obs.u64(nc as u64);
+                    ctx.stats.bump("probe.big_count");
+                    if nc != walked || nc != exp {
+                        ctx.violate(&["C03", "C20"], "big-node-count", format!("{:?}: node_count() = {}, a traversal finds {}, the closed form is {}", ins, nc, walked, exp));
+                    }
+                }
+            }
+        }
+        BigCount { .. } => {}
         EvalAll { a } => {
             if let (Some(f), Some(d)) = (s.reg(*a), model.reg(*a)) {
                 let t = d.b();
@@ -288,13 +348,15 @@ pub fn step_bool(s: &mut Mach, ins: &Instr, model: &mut Model, ctx: &mut RunCtx)
                     // several times the last value counts. Shapes by assignment index: ascending;
                     // descending; every variable first with the opposite, then with the real value
                     let real = |v: u32| (v, a_idx >> v & 1 == 1);
-                    let got = match a_idx % 3 {
+                    let got = match a_idx % 4 {
                         0 => f.eval((0..n).map(real)),
                         1 => f.eval((0..n).rev().map(real)),
-                        _ => f.eval((0..n).map(|v| (v, a_idx >> v & 1 == 0)).chain((0..n).rev().map(real))),
+                        2 => f.eval((0..n).map(|v| (v, a_idx >> v & 1 == 0)).chain((0..n).rev().map(real))),
+                        // documented: a variable without a value counts as false
+                        _ => f.eval((0..n).filter(|v| a_idx >> v & 1 == 1).map(real)),
                     };
                     if got != t.get(a_idx) {
-                        ctx.violate(&["C02"], "eval", format!("eval(r{} = {}, assignment {:b}, argument shape {}) = {}", a, t.hex(), a_idx, a_idx % 3, got));
+                        ctx.violate(&["C02"], "eval", format!("eval(r{} = {}, assignment {:b}, argument shape {}) = {}", a, t.hex(), a_idx, a_idx % 4, got));
                         break;
                     }
                     a_idx += stride;
